@@ -594,3 +594,53 @@ func (c *Cluster) Delay(f *Node, us int64) {
 		atomic.StoreInt64(&lk.delayUS, us)
 	}
 }
+
+// FreezeFollower cuts all links of a follower and waits until nothing is in
+// flight towards or inside it. It returns the previous cut states for Thaw.
+func (c *Cluster) FreezeFollower(f *Node) (map[int]bool, error) {
+	prev := map[int]bool{}
+	c.mx.Lock()
+	links := make([]*Link, 0, len(f.links))
+	for id, lk := range f.links {
+		links = append(links, lk)
+		lk.mx.Lock()
+		prev[id] = lk.cut
+		lk.cut = true
+		lk.mx.Unlock()
+	}
+	c.mx.Unlock()
+	deadline := time.Now().Add(QuiesceTimeout)
+	stable := 0
+	for {
+		ok := true
+		for _, lk := range links {
+			if atomic.LoadInt32(&lk.inFlight) != 0 {
+				ok = false
+			}
+		}
+		for _, p := range f.Z.VerifProgress() {
+			if !p.Quiet() {
+				ok = false
+			}
+		}
+		if ok {
+			stable++
+			if stable >= 3 {
+				return prev, nil
+			}
+		} else {
+			stable = 0
+		}
+		if time.Now().After(deadline) {
+			return prev, fmt.Errorf("%w: follower did not become quiet", ErrInconclusive)
+		}
+		time.Sleep(500 * time.Microsecond)
+	}
+}
+
+// Thaw restores the cut states saved by FreezeFollower.
+func (c *Cluster) Thaw(f *Node, prev map[int]bool) {
+	for id, cut := range prev {
+		c.Cut(f, id, cut)
+	}
+}
